@@ -94,3 +94,26 @@ def _(self: Union[ROTM(1), ROTM(2), ROTM(3), ROTM(4)]) -> bytes:
     returns(HASH("sha256", rkht_table(self.rot_items)), label="rot-hash-is-the-image-tools-rkth")
     pure()
     sample_with(lambda rnd: {"self": RotMetaRSA([bytes(rnd.getrandbits(8) for _ in range(32)) for _ in range(rnd.randrange(1, 5))])})
+
+
+# ---- the RoT entry a debug credential carries for an ECC key is the image tool's root key hash of the same key ---------------------------
+# DC side: RotMetaEcc hashes pub_key.export() (raw X || Y, contract in C08); image side: RKHT._calc_key_hash (contract in C03).  The lemma joins
+# the two contracts; both callee contracts are re-verified as part of this property.
+from spsdk.crypto.crypto_types import SPSDKEncoding  # noqa: E402
+from spsdk.crypto.hash import EnumHashAlgorithm, get_hash  # noqa: E402
+from spsdk.crypto.keys import EccCurve, PublicKeyEcc  # noqa: E402
+from spsdk.utils.crypto.rkht import RKHT  # noqa: E402
+
+
+def ECCKEY(bits, curve):
+    return Obj(PublicKeyEcc, x=Range(0, (1 << bits) - 1), y=Range(0, (1 << bits) - 1), coordinate_size=Const(bits // 8), key_size=Const(bits), curve=Const(curve))
+
+
+@lemma("dc-rot-entry-equals-the-image-tools-root-key-hash-p256")
+def _(key: ECCKEY(256, EccCurve.SECP256R1)):
+    ensures(RKHT._calc_key_hash(key, None) == get_hash(key.export(SPSDKEncoding.NXP), EnumHashAlgorithm.SHA256), label="same-hash-also-for-leading-zero-coordinates")
+
+
+@lemma("dc-rot-entry-equals-the-image-tools-root-key-hash-p384")
+def _(key: ECCKEY(384, EccCurve.SECP384R1)):
+    ensures(RKHT._calc_key_hash(key, None) == get_hash(key.export(SPSDKEncoding.NXP), EnumHashAlgorithm.SHA384), label="same-hash-also-for-leading-zero-coordinates")
